@@ -146,22 +146,28 @@ Definition enc_provider_line (a : asub) : list Z :=
 
 Definition bad : list (list Z) := [[-1]].
 
-(* one operation: new state and its output lines *)
-Definition step (st0 : state) (l : list Z) : state * list (list Z) :=
-  let st := tick_clock st0 in
+(* ---------- abstract operations ---------- *)
+Inductive aop :=
+| APerm (expiring : bool) (scope : list Z)
+| AAdd (p : Z) (name : list Z) (dt : data_type) (ct : change_type) (et : entry_type)
+       (mn mx al : option value)
+| AUpdate (p : Z) (us : list (Z * upd))
+| AGet (p : Z) (id : Z)
+| ASub (p : Z) (es : list (Z * fields)) (buf : option Z)
+| ARecv (h : Z) (k : Z)
+| ADrop (h : Z)
+| AProvide (p : Z) (ids : list Z)
+| AProvDown (h : Z)
+| AActuate (p : Z) (id : Z) (v : value)
+| ABatch (p : Z) (cs : list (Z * value))
+| ACleanup | AShutdown | ATick | ADump.
+
+Definition decode (l : list Z) : option aop :=
   match l with
   | 0 :: expflag :: r =>
     match dec_str r with
-    | Some (sc, []) =>
-      match perms_of_claims sc 0 with
-      | None => (st, [[0]])
-      | Some p =>
-        let p' := {| p_expires := if expflag =? 0 then None else Some 0; p_read := p_read p;
-                     p_actuate := p_actuate p; p_provide := p_provide p; p_create := p_create p |} in
-        ({| st_db := st_db st; st_csubs := st_csubs st; st_asubs := st_asubs st; st_now := st_now st;
-            st_clock := st_clock st; st_perms := st_perms st ++ [p'] |}, [[1]])
-      end
-    | _ => (st, bad)
+    | Some (sc, []) => Some (APerm (negb (expflag =? 0)) sc)
+    | _ => None
     end
   | 1 :: p :: r =>
     match dec_str r with
@@ -171,90 +177,137 @@ Definition step (st0 : state) (l : list Z) : state * list (list Z) :=
         match dec_opt_value r2 with
         | Some (mx, r3) =>
           match dec_opt_value r3 with
-          | Some (al, []) =>
-            let '(db', res) := add_entry (st_db st) (get_perm st p) (st_now st) (st_clock st)
-                                         name dt' ct' et' mn mx al in
-            ({| st_db := db'; st_csubs := st_csubs st; st_asubs := st_asubs st; st_now := st_now st;
-                st_clock := st_clock st; st_perms := st_perms st |},
-             [match res with inl id => [0; id] | inr e => [1; reg_error_code e] end])
-          | _ => (st, bad)
+          | Some (al, []) => Some (AAdd p name dt' ct' et' mn mx al)
+          | _ => None
           end
-        | None => (st, bad)
+        | None => None
         end
-      | _, _, _, _ => (st, bad)
+      | _, _, _, _ => None
       end
-    | _ => (st, bad)
+    | _ => None
     end
   | 2 :: p :: n :: r =>
-    match dec_updates (Z.to_nat n) r with
-    | Some us =>
-      let '(st', errs) := update_entries st (get_perm st p) us in
-      (st', [Z.of_nat (length errs) :: flat_map (fun '(id, e) => [id; update_error_code e]) errs])
-    | None => (st, bad)
-    end
-  | [3; p; id] =>
-    (st, [match read_entry (st_db st) (get_perm st p) (st_now st) id with
-          | inl e => 0 :: enc_dp (e_dp e)
-                     ++ match e_target e with None => [0] | Some d => 1 :: enc_dp d end
-          | inr e => [1; read_error_code e]
-          end])
+    match dec_updates (Z.to_nat n) r with Some us => Some (AUpdate p us) | None => None end
+  | [3; p; id] => Some (AGet p id)
   | 4 :: p :: bf :: buf :: n :: r =>
     match dec_pairs (Z.to_nat n) r with
-    | Some es =>
-      let '(st', res) := subscribe st (get_perm st p)
-                                   (map (fun '(id, m) => (id, fields_of_mask m)) es)
-                                   (if bf =? 0 then None else Some buf) in
-      (st', [match res with inl h => [0; h] | inr e => [1; sub_error_code e] end])
-    | None => (st, bad)
+    | Some es => Some (ASub p (map (fun '(id, m) => (id, fields_of_mask m)) es)
+                            (if bf =? 0 then None else Some buf))
+    | None => None
     end
-  | [5; h; k] =>
+  | [5; h; k] => Some (ARecv h k)
+  | [6; h] => Some (ADrop h)
+  | 7 :: p :: n :: r => if Z.of_nat (length r) =? n then Some (AProvide p r) else None
+  | [8; h] => Some (AProvDown h)
+  | 9 :: p :: id :: r =>
+    match dec_value r with Some (v, []) => Some (AActuate p id v) | _ => None end
+  | 10 :: p :: n :: r =>
+    match dec_changes (Z.to_nat n) r with Some cs => Some (ABatch p cs) | None => None end
+  | [11] => Some ACleanup
+  | [12] => Some AShutdown
+  | [13] => Some ATick
+  | [14] => Some ADump
+  | _ => None
+  end.
+
+Definition set_db (st : state) (db : database) : state :=
+  {| st_db := db; st_csubs := st_csubs st; st_asubs := st_asubs st; st_now := st_now st;
+     st_clock := st_clock st; st_perms := st_perms st |}.
+
+Definition drop_csub (s : csub) : csub :=
+  {| cs_handle := cs_handle s; cs_entries := cs_entries s; cs_perms := cs_perms s;
+     cs_cap := cs_cap s; cs_sent := cs_sent s; cs_pos := cs_pos s; cs_open := false;
+     cs_registered := cs_registered s |}.
+
+Definition down_asub (a : asub) : asub :=
+  {| as_handle := as_handle a; as_ids := as_ids a; as_perms := as_perms a; as_available := false;
+     as_registered := as_registered a; as_inbox := as_inbox a |}.
+
+(* the state transformer of one operation (the operation counter has already been advanced) *)
+Definition exec_state (st : state) (a : aop) : state :=
+  match a with
+  | APerm expiring sc =>
+    match perms_of_claims sc 0 with
+    | None => st
+    | Some p =>
+      let p' := {| p_expires := if expiring then Some 0 else None; p_read := p_read p;
+                   p_actuate := p_actuate p; p_provide := p_provide p; p_create := p_create p |} in
+      {| st_db := st_db st; st_csubs := st_csubs st; st_asubs := st_asubs st; st_now := st_now st;
+         st_clock := st_clock st; st_perms := st_perms st ++ [p'] |}
+    end
+  | AAdd p name dt ct et mn mx al =>
+    set_db st (fst (add_entry (st_db st) (get_perm st p) (st_now st) (st_clock st) name dt ct et mn mx al))
+  | AUpdate p us => fst (update_entries st (get_perm st p) us)
+  | AGet _ _ => st
+  | ASub p es buf => fst (subscribe st (get_perm st p) es buf)
+  | ARecv h k =>
+    match find_csub st h with
+    | Some s => if negb (cs_open s) then st
+                else update_csub st h (fun _ => fst (recv_k (Z.to_nat k) s []))
+    | None => st
+    end
+  | ADrop h => update_csub st h drop_csub
+  | AProvide p ids => fst (provide_actuation st (get_perm st p) ids)
+  | AProvDown h => set_asubs st (map (fun a => if as_handle a =? h then down_asub a else a) (st_asubs st))
+  | AActuate p id v => fst (actuate st (get_perm st p) id v)
+  | ABatch p cs => fst (batch_actuate st (get_perm st p) cs)
+  | ACleanup => cleanup (st_now st) st
+  | AShutdown => shutdown st
+  | ATick => {| st_db := st_db st; st_csubs := st_csubs st; st_asubs := st_asubs st;
+                st_now := st_now st + 1; st_clock := st_clock st; st_perms := st_perms st |}
+  | ADump => st
+  end.
+
+(* the output lines of one operation *)
+Definition exec_out (st : state) (a : aop) : list (list Z) :=
+  match a with
+  | APerm _ sc => [[match perms_of_claims sc 0 with None => 0 | Some _ => 1 end]]
+  | AAdd p name dt ct et mn mx al =>
+    [match snd (add_entry (st_db st) (get_perm st p) (st_now st) (st_clock st) name dt ct et mn mx al) with
+     | inl id => [0; id] | inr e => [1; reg_error_code e] end]
+  | AUpdate p us =>
+    let errs := snd (update_entries st (get_perm st p) us) in
+    [Z.of_nat (length errs) :: flat_map (fun '(id, e) => [id; update_error_code e]) errs]
+  | AGet p id =>
+    [match read_entry (st_db st) (get_perm st p) (st_now st) id with
+     | inl e => 0 :: enc_dp (e_dp e) ++ match e_target e with None => [0] | Some d => 1 :: enc_dp d end
+     | inr e => [1; read_error_code e]
+     end]
+  | ASub p es buf =>
+    [match snd (subscribe st (get_perm st p) es buf) with
+     | inl h => [0; h] | inr e => [1; sub_error_code e] end]
+  | ARecv h k =>
     match find_csub st h with
     | Some s =>
-      if negb (cs_open s) then (st, bad) else
+      if negb (cs_open s) then bad else
       let '(s', msgs) := recv_k (Z.to_nat k) s [] in
-      (update_csub st h (fun _ => s'),
-       msgs ++ [[101; Z.of_nat (length msgs);
-                 b2z (negb (Z.of_nat (length msgs) =? k) && stream_ended s')]])
-    | None => (st, bad)
+      msgs ++ [[101; Z.of_nat (length msgs);
+                b2z (negb (Z.of_nat (length msgs) =? k) && stream_ended s')]]
+    | None => bad
     end
-  | [6; h] =>
-    (update_csub st h (fun s => {| cs_handle := cs_handle s; cs_entries := cs_entries s;
-                                   cs_perms := cs_perms s; cs_cap := cs_cap s; cs_sent := cs_sent s;
-                                   cs_pos := cs_pos s; cs_open := false;
-                                   cs_registered := cs_registered s |}), [[0]])
-  | 7 :: p :: n :: r =>
-    if Z.of_nat (length r) =? n then
-      let '(st', res) := provide_actuation st (get_perm st p) r in
-      (st', [match res with inl h => [0; h] | inr e => [1; act_error_code e] end])
-    else (st, bad)
-  | [8; h] =>
-    (set_asubs st (map (fun a => if as_handle a =? h
-                                 then {| as_handle := as_handle a; as_ids := as_ids a;
-                                         as_perms := as_perms a; as_available := false;
-                                         as_registered := as_registered a; as_inbox := as_inbox a |}
-                                 else a) (st_asubs st)), [[0]])
-  | 9 :: p :: id :: r =>
-    match dec_value r with
-    | Some (v, []) =>
-      let '(st', res) := actuate st (get_perm st p) id v in
-      (st', [match res with None => [0] | Some e => [1; act_error_code e] end])
-    | _ => (st, bad)
-    end
-  | 10 :: p :: n :: r =>
-    match dec_changes (Z.to_nat n) r with
-    | Some cs =>
-      let '(st', res) := batch_actuate st (get_perm st p) cs in
-      (st', [match res with None => [0] | Some e => [1; act_error_code e] end])
-    | None => (st, bad)
-    end
-  | [11] => (cleanup (st_now st) st, [[0]])
-  | [12] => (shutdown st, [[0]])
-  | [13] => ({| st_db := st_db st; st_csubs := st_csubs st; st_asubs := st_asubs st;
-                st_now := st_now st + 1; st_clock := st_clock st; st_perms := st_perms st |}, [[0]])
-  | [14] => (st, map enc_entry_line (entries (st_db st)) ++ map enc_provider_line (st_asubs st)
-                 ++ [[399]])
-  | _ => (st, bad)
+  | ADrop _ | AProvDown _ | ACleanup | AShutdown | ATick => [[0]]
+  | AProvide p ids =>
+    [match snd (provide_actuation st (get_perm st p) ids) with
+     | inl h => [0; h] | inr e => [1; act_error_code e] end]
+  | AActuate p id v =>
+    [match snd (actuate st (get_perm st p) id v) with None => [0] | Some e => [1; act_error_code e] end]
+  | ABatch p cs =>
+    [match snd (batch_actuate st (get_perm st p) cs) with None => [0] | Some e => [1; act_error_code e] end]
+  | ADump => map enc_entry_line (entries (st_db st)) ++ map enc_provider_line (st_asubs st) ++ [[399]]
   end.
+
+(* every operation, also an undecodable line, advances the operation counter *)
+Definition run_op (st : state) (a : aop) : state := exec_state (tick_clock st) a.
+
+Definition step (st0 : state) (l : list Z) : state * list (list Z) :=
+  let st := tick_clock st0 in
+  match decode l with
+  | Some a => (exec_state st a, exec_out st a)
+  | None => (st, bad)
+  end.
+
+(* the states reachable by any finite history of operations *)
+Definition run_history (h : list aop) : state := fold_left run_op h init_state.
 
 Fixpoint run_ops (st : state) (ops : list (list Z)) : list (list Z) :=
   match ops with
